@@ -52,6 +52,13 @@ pub fn pool(tier: &str) -> Vec<Term> {
       }
     }
   }
+  // three replacements in every insertion order (the sorted order differs from all but one)
+  {
+    let base = [Repl::new(5, 5, "A"), Repl::new(1, 2, "B"), Repl::new(3, 3, "C")];
+    for perm in [[0, 1, 2], [0, 2, 1], [1, 0, 2], [1, 2, 0], [2, 0, 1], [2, 1, 0]] {
+      v.push(Term::replace(Term::orig("abcdef\n", "p.js"), perm.iter().map(|&i| base[i].clone()).collect()));
+    }
+  }
   v.push(Term::cached(Term::replace(o("a\nb"), vec![Repl::new(1, 2, "")])));
   v.push(Term::cached(Term::cached(o("a"))));
   v.push(Term::concat(vec![Term::cached(o("a;b")), Term::replace(Term::raw("x"), vec![Repl::new(0, 0, "y")])]));
@@ -234,6 +241,75 @@ pub fn c14_neighbours(ctx: &mut Ctx, t: &Term, e: &Term, kind: &str, pres: &[Vec
   }
 }
 
+/// "Sources built from the same constructor calls are equal" also when observers ran while one of
+/// them was still being built: a ReplaceSource gets its replacements one by one with an observer
+/// call after a prefix of them; it must equal the plainly built twin, hash alike and answer alike.
+pub fn c14_staged(ctx: &mut Ctx, t: &Term) {
+  use rspack_sources::{ReplaceSource, SourceExt};
+  let Term::Replace(inner, repls) = t else { return };
+  if repls.len() < 2 {
+    return;
+  }
+  let text = model::model_text(t);
+  let plain = t.build();
+  let reference = observe_all(plain.as_ref(), &text);
+  let h_ref = hash_dyn(t.build().as_ref());
+  for gap in 1..repls.len() {
+    for pre in PRES {
+      ctx.evaluations += 1;
+      ctx.transitions += repls.len() as u64 + 1;
+      let case = || json!({"kind": "staged", "term": serde_json::to_value(t).unwrap(), "observer_after": gap, "observer": format!("{pre:?}")});
+      let built = observe::guarded(|| {
+        let mut r = ReplaceSource::new(inner.build());
+        for x in &repls[..gap] {
+          crate::term::apply_repl(&mut r, x);
+        }
+        match pre {
+          Pre::Source => drop(r.source().len()),
+          Pre::MapT => drop(r.map(&MapOptions::new(true))),
+          Pre::MapF => drop(r.map(&MapOptions::new(false))),
+          Pre::StreamT => drop(observe::stream(&r, true, false)),
+          Pre::Hash => drop(hash_dyn(&r)),
+          Pre::Size => drop(r.size()),
+          Pre::Clone => r = r.clone(),
+        }
+        for x in &repls[gap..] {
+          crate::term::apply_repl(&mut r, x);
+        }
+        r.boxed()
+      });
+      let b = match built {
+        Ok(b) => b,
+        Err(e) => {
+          ctx.violation("panic", "staged".into(), None, case, t.size(), e);
+          continue;
+        }
+      };
+      ctx.nontrivial += 1;
+      let eq = observe::guarded(|| &plain == &b).unwrap_or(false);
+      if !eq {
+        ctx.violation("twins_not_equal", "staged".into(), None, case, t.size(), format!("built with {pre:?} after {gap} replacements: not equal to the plainly built twin"));
+      }
+      if hash_dyn(b.as_ref()) != h_ref {
+        ctx.violation("equal_but_hash_differs", "staged".into(), None, case, t.size(), format!("built with {pre:?} after {gap} replacements: hash differs from the plainly built twin"));
+      }
+      let ob = observe_all(b.as_ref(), &text);
+      if ob != reference {
+        let which = ob.answers.iter().zip(&reference.answers).position(|(x, y)| x != y);
+        ctx.violation(
+          "equal_but_observably_different",
+          format!("staged {:?}", which.map(|i| OBS_CALLS[i])),
+          None,
+          case,
+          t.size(),
+          format!("built with {pre:?} after {gap} of {} replacements: equal to its twin but {:?} answers differently", repls.len(), which.map(|i| OBS_CALLS[i])),
+        );
+      }
+      ctx.traces_validated += 1;
+    }
+  }
+}
+
 pub fn c14_worker(tier: &str, k: usize, n: usize, ctx: &mut Ctx) {
   let pool = pool(tier);
   let pres2 = prefixes(2);
@@ -248,6 +324,7 @@ pub fn c14_worker(tier: &str, k: usize, n: usize, ctx: &mut Ctx) {
     ctx.states += 1;
     ctx.sample(40, 2, || json!({"term": serde_json::to_value(t).unwrap(), "prefix_pairs": pres2.len() * pres2.len()}));
     c14_tree(ctx, t, &pres2);
+    c14_staged(ctx, t);
     for (kind, e) in edits(t) {
       ctx.states += 1;
       c14_neighbours(ctx, t, &e, &kind, &pres1);
